@@ -1207,7 +1207,58 @@ pub fn step_emi(sim: &mut Sim, ctx: &mut Ctx) -> Option<Tx> {
             why: "fixture_emissions_user_account",
         });
     }
-    match ctx.rng.below(6) {
+    match ctx.rng.below(7) {
+        6 => {
+            // a third party takes the account into receivership (it is made unhealthy first) and,
+            // INSIDE the bracket, asks for the account's accrued rewards to be paid to a token
+            // account of its own: rewards go to the authority's chosen destination only
+            // needs an account that owes something (only such an account can be unhealthy) and
+            // holds a position in the emissions bank
+            let owing: Vec<(usize, Pubkey)> = us
+                .iter()
+                .filter(|(_, m)| {
+                    model::account_of(&sim.store, m)
+                        .map(|a| {
+                            let bs = active_balances(&a);
+                            bs.iter().any(|x| i80(x.liability_shares) >= I80F48::ONE) && bs.iter().any(|x| i80(x.asset_shares) >= I80F48::ONE) && bs.iter().any(|x| x.bank_pk == b.keys.bank)
+                        })
+                        .unwrap_or(false)
+                })
+                .cloned()
+                .collect();
+            let (ui, ma) = if owing.is_empty() { (ui, ma) } else { *ctx.rng.pick(&owing) };
+            crate::actors_tx::make_unhealthy_target(sim, ctx, Some(ma));
+            let others: Vec<usize> = (0..ctx.world.users.len()).filter(|x| *x != ui).collect();
+            if others.is_empty() {
+                return None;
+            }
+            let r = ctx.world.users[*ctx.rng.pick(&others)].clone();
+            let r_ta = {
+                let mut k = r.authority.to_bytes();
+                let m = mint.to_bytes();
+                for i in 0..32 {
+                    k[i] = k[i].wrapping_add(m[i]).rotate_left(1);
+                }
+                Pubkey::new_from_array(k)
+            };
+            if sim.store.get(&r_ta).is_none() {
+                sim.apply(Event::SetAccount { key: r_ta, account: Some(crate::fixtures::token_account(&mint, &mint_acc, &r.authority, 0)), why: "fixture_emissions_user_account" });
+            }
+            let acc = model::account_of(&sim.store, &ma)?;
+            let rm = crate::world::risk_metas(&sim.store, &ma, None, None);
+            let mut ixs = Vec::new();
+            if acc.liquidation_record == Pubkey::default() {
+                ixs.push(ix::init_liq_record(ma, ctx.world.payer));
+            }
+            ixs.push(ix::start_liquidation(ma, r.authority, rm.clone()));
+            if ctx.rng.chance(1, 4) {
+                ixs.push(ix::settle_emissions(ma, b.keys.bank));
+            }
+            ixs.push(ix::withdraw_emissions(&b.keys, ma, r.authority, mint, tp, r_ta));
+            ixs.push(ix::end_liquidation(ma, r.authority, ctx.world.fee_wallet, rm));
+            sim.stats.fault("emissions_withdrawal_attempted_inside_a_receivership_bracket");
+            Some(Tx::many("receiver", ixs))
+        }
         0 | 1 => Some(Tx::one("anyone", ix::settle_emissions(ma, b.keys.bank))),
         2 => Some(Tx::one("user", ix::withdraw_emissions(&b.keys, ma, u.authority, mint, tp, user_ta))),
         3 => {
